@@ -104,7 +104,7 @@ def normalize_pair(req, impl, model):
     if model == "(compressed)" and not impl.startswith("(panic"):
         impl = model
     # C11 memory images: a schema that claims no layout prescribes nothing
-    if req.startswith("(smem ") and model in ("(ok no-layout)", "(ok unprojectable)"):
+    if (req.startswith("(smem ") or req.startswith("(smemh ")) and model in ("(ok no-layout)", "(ok unprojectable)"):
         impl = model
     # C05 gate verdicts: the model only demands rejection when the two types do not describe the same bytes
     if req.startswith("(xload "):
